@@ -287,8 +287,21 @@ impl NaturalRange {
     where
         F: FnMut(NaturalBound, NaturalBound) -> NaturalBound,
     {
+        // An open lower bound is zero and must not be confused with an open upper bound, which is
+        // infinite and absorbs other bounds.
+        fn zero_if_open(lower: NaturalBound) -> NaturalBound {
+            match lower {
+                Variance::Variant(Unbounded) => Variance::Invariant(Zero),
+                lower => lower,
+            }
+        }
+
         let lhs = self;
-        let lower = f(lhs.lower().into_bound(), rhs.lower().into_bound()).into_lower();
+        let lower = f(
+            zero_if_open(lhs.lower().into_bound()),
+            zero_if_open(rhs.lower().into_bound()),
+        )
+        .into_lower();
         let upper = f(lhs.upper().into_bound(), rhs.upper().into_bound()).into_upper();
         Self::from_closed_and_open(lower.into_usize(), upper.into_usize())
     }
